@@ -20,6 +20,10 @@ PID = "C18"
 EXTRA_PROPS = ("C18s",)
 RULE = ("case 'conv' = (generated DBC matrix with unique frame names, signal names unique per frame (half of the matrices reuse them across frames), several senders and receivers, ECUs that send and receive, "
         "receive-only and unreferenced ECUs, user attributes on frames and signals, zero-length signals, FD frames, frames of 1..64 bytes; "
+        "a third of the frames multiplexed (one multiplexer signal anywhere in the frame, multiplexed signals m<n> - several per value, on shared "
+        "bits - and plain signals), a quarter of the signals signed; the multiplexer role, the multiplexer value and the signedness of every signal "
+        "are observed in the output and judged as unchanged (they travel as entries of the signal's attribute list, KIND_ATTRS); deleteSignal "
+        "lists name signals by role too (the multiplexer while its multiplexed signals stay, one or all multiplexed signals); "
         "no option, one option or a pair of options out of deleteEcu, renameEcu, deleteFrame, renameFrame, deleteSignal, renameSignal, "
         "deleteZeroSignals, deleteSignalAttributes, deleteFrameAttributes, setFrameFd, unsetFrameFd, skipLongDlc, cutLongFrames, "
         "recalcDLC, changeFrameId, addFrameReceiver, deleteObsoleteEcus, frames, ecus with rx/tx suffixes; arguments: existing and "
@@ -80,16 +84,36 @@ def gen_matrix(rng):
         size = rng.choice([1, 2, 3, 4, 6, 8, 8] + ([12, 16, 24, 64] if fd else []))
         sigs = []
         pos = 0
-        for j in range(rng.randint(0, 5)):
+        # the kinds of signals (KIND_ATTRS): a third of the frames are multiplexed - one signal is the multiplexer (at any place in
+        # the frame, of any width), each of the others is multiplexed (m<n>, several signals per value, values left out, signals of
+        # different values on the same bits) or plain; a quarter of all signals are signed
+        muxed = rng.random() < 0.35
+        nsig = rng.randint(0, 5)
+        muxer = rng.randrange(nsig) if muxed and nsig else None
+        last = None                              # (start, size, value) of the multiplexed signal before this one
+        for j in range(nsig):
             w = rng.choice([0, 1, 2, 4, 8, 8, 12, 16]) if rng.random() < 0.9 else rng.randint(1, 32)
             gap = rng.choice([0, 0, 1, 4, 8])
-            if pos + gap + w > size * 8:
+            kind = []
+            start = pos + gap
+            if muxed and j == muxer:
+                kind.append(["mux", "M"])
+            elif muxed and rng.random() < 0.75:
+                val = rng.choice([0, 0, 1, 1, 2, 3, 7])
+                if last is not None and last[2] != val and rng.random() < 0.5:
+                    start, w = last[0], (last[1] if rng.random() < 0.5 else min(w, last[1]))
+                kind.append(["mux", "m%d" % val])
+            if max(start + w, pos) > size * 8:
                 break
-            sigs.append({"name": "%s%d" % (rng.choice(["sig", "Speed", "st", "st1_1"]), signo), "start": pos + gap, "size": w,
+            if rng.random() < 0.25:
+                kind.append(["signed", "1"])
+            if kind and kind[0][0] == "mux" and kind[0][1] != "M":
+                last = (start, w, val)
+            sigs.append({"name": "%s%d" % (rng.choice(["sig", "Speed", "st", "st1_1"]), signo), "start": start, "size": w,
                          "receivers": rng.sample(ecus, rng.choice([0, 1, 1, 2])),
-                         "attrs": [["SgInt", str(rng.randint(0, 9))]] * (rng.random() < 0.3) + [["SgStr", rng.choice(["a", "b c"])]] * (rng.random() < 0.2)})
+                         "attrs": [["SgInt", str(rng.randint(0, 9))]] * (rng.random() < 0.3) + [["SgStr", rng.choice(["a", "b c"])]] * (rng.random() < 0.2) + kind})
             signo += 1
-            pos += gap + w
+            pos = max(pos, start + w)
         frames.append({"name": "%s%d" % (rng.choice(["Frame", "Msg", "Frame_x", "Msg0_0"]), k), "id": arbid, "ext": ext, "size": size, "fd": fd,
                        "tx": rng.sample(ecus, rng.choice([0, 1, 1, 1, 2])), "sigs": sigs,
                        "attrs": [["FrInt", str(rng.randint(0, 9))]] * (rng.random() < 0.3) + [["FrStr", rng.choice(["x", "y z"])]] * (rng.random() < 0.2)})
@@ -107,9 +131,12 @@ def build(m):
     for f in m["frames"]:
         fr = cm.Frame(f["name"], arbitration_id=cm.ArbitrationId(f["id"], f["ext"]), size=f["size"], transmitters=list(f["tx"]), is_fd=f["fd"])
         for s in f["sigs"]:
-            sg = cm.Signal(s["name"], start_bit=s["start"], size=s["size"], is_little_endian=True, is_signed=False, receivers=list(s["receivers"]))
+            kind = dict(kv for kv in s["attrs"] if kv[0] in KIND_ATTRS)
+            sg = cm.Signal(s["name"], start_bit=s["start"], size=s["size"], is_little_endian=True, is_signed="signed" in kind,
+                           receivers=list(s["receivers"]), multiplex=mux_arg(kind.get("mux")))
             for k, v in s["attrs"]:
-                sg.add_attribute(k, v)
+                if k not in KIND_ATTRS:
+                    sg.add_attribute(k, v)
             fr.add_signal(sg)
         for k, v in f["attrs"]:
             fr.add_attribute(k, v)
@@ -119,6 +146,32 @@ def build(m):
 
 
 USER_ATTRS = {"FrInt", "FrStr", "SgInt", "SgStr"}
+# What kind of signal it is - properties no option is documented to touch - travels in the place of the judge's matrix that no option
+# but deleteSignalAttributes (never called with these names) touches, the attribute list of the signal: ["mux", "M"] the multiplexer of
+# its frame, ["mux", "m<n>"] multiplexed with the value n, ["signed", "1"] a signed value.  build() makes the real signal of that kind,
+# kind_of() reads the kind of a signal of the output back, so "and in no other way" covers them, and every option meets multiplexers
+# and multiplexed signals among its targets and among the bystanders.
+KIND_ATTRS = ("mux", "signed")
+
+
+def mux_arg(text):
+    """the `multiplex` argument of canmatrix.Signal for ["mux", text]"""
+    if text is None:
+        return None
+    return "Multiplexor" if text == "M" else int(text[1:])
+
+
+def kind_of(s):
+    kind = []
+    if s.is_multiplexer or s.mux_val is not None:
+        kind.append(["mux", ("m%d" % s.mux_val if s.mux_val is not None else "") + ("M" if s.is_multiplexer else "")])
+    if s.is_signed:
+        kind.append(["signed", "1"])
+    return kind
+
+
+def sig_attrs(s):
+    return sorted([[k, str(v)] for k, v in s.attributes.items() if k in USER_ATTRS] + kind_of(s))
 # what the DBC format makes of signals without a frame (dbc.py dump/load): a frame of this name and identifier, no length, no sender
 PSEUDO = {"name": "VECTOR__INDEPENDENT_SIG_MSG", "id": 0x40000000, "ext": True, "size": 0, "fd": False, "tx": [], "sigs": [], "attrs": []}
 
@@ -129,12 +182,12 @@ def abstract(db):
         frames.append({"name": f.name, "id": int(f.arbitration_id.id), "ext": bool(f.arbitration_id.extended), "size": int(f.size), "fd": bool(f.is_fd),
                        "tx": list(f.transmitters),
                        "sigs": [{"name": s.name, "start": int(s.get_startbit()), "size": int(s.size), "receivers": list(s.receivers),
-                                 "attrs": sorted([k, str(v)] for k, v in s.attributes.items() if k in USER_ATTRS)} for s in f.signals],
+                                 "attrs": sig_attrs(s)} for s in f.signals],
                        "attrs": sorted([k, str(v)] for k, v in f.attributes.items() if k in USER_ATTRS)})
     if db.signals:
         # signals without a frame (--signals): the DBC reader takes them out of the pseudo frame again; observed as a last frame
         frames.append(dict(PSEUDO, sigs=[{"name": s.name, "start": int(s.get_startbit()), "size": int(s.size), "receivers": list(s.receivers),
-                                          "attrs": sorted([k, str(v)] for k, v in s.attributes.items() if k in USER_ATTRS)} for s in db.signals]))
+                                          "attrs": sig_attrs(s)} for s in db.signals]))
     ecus = [e.name for e in db.ecus]
     for f in frames:
         for e in f["tx"] + [r for s in f["sigs"] for r in s["receivers"]]:
@@ -145,6 +198,30 @@ def abstract(db):
 
 def names_of(m):
     return [f["name"] for f in m["frames"]], [s["name"] for f in m["frames"] for s in f["sigs"]]
+
+
+def role_of(sig):
+    mux = dict(kv for kv in sig["attrs"] if kv[0] == "mux").get("mux")
+    return "plain" if mux is None else ("multiplexer" if mux == "M" else "multiplexed")
+
+
+def signals_by_role(m):
+    """the signal names of the multiplexed frames by their role there ({} without a multiplexed frame)"""
+    out = collections.defaultdict(list)
+    for f in m["frames"]:
+        roles = [role_of(s) for s in f["sigs"]]
+        if "multiplexer" not in roles:
+            continue
+        for s, r in zip(f["sigs"], roles):
+            if r == "multiplexer":
+                out["multiplexer, multiplexed signals in the frame" if "multiplexed" in roles else "multiplexer, no multiplexed signal"].append(s["name"])
+            elif r == "multiplexed":
+                out["multiplexed"].append(s["name"])
+            else:
+                out["plain in a multiplexed frame"].append(s["name"])
+        if "multiplexed" in roles and "all multiplexed" not in out:
+            out["all multiplexed"] = [s["name"] for s, r in zip(f["sigs"], roles) if r == "multiplexed"]
+    return dict(out)
 
 
 def pick(rng, pool, extra=("Nope",), lo=1, hi=2):
@@ -169,7 +246,17 @@ def gen_option(rng, m, name):
             return [["*0", "_null"]]
         return [[n, "New_" + n] for n in pick(rng, fnames)]
     if name == "deleteSignal":
-        return pick(rng, snames, ("Nope", "sig*", "S?eed*"))
+        names = pick(rng, snames, ("Nope", "sig*", "S?eed*"))
+        by_role = signals_by_role(m)
+        if by_role and rng.random() < 0.4:
+            # a signal chosen by what it is in its frame (the multiplexer while multiplexed signals stay, one or all of the multiplexed
+            # signals, a plain signal next to them), alone, before or after the other entries of the list
+            role = rng.choice(sorted(by_role))
+            extra = list(by_role[role]) if role == "all multiplexed" else [rng.choice(by_role[role])]
+            r = rng.random()
+            names = extra if r < 0.4 else (extra + names if r < 0.7 else names + extra)
+            names = [n for k, n in enumerate(names) if n not in names[:k]]
+        return names
     if name == "renameSignal":
         r = rng.random()
         if r < 0.2:
@@ -253,6 +340,12 @@ def select_signals(m, pats):
         seen[s["name"]] += 1
         out.append(dict(s, name=name))
     if len({s["name"] for s in out}) != len(out):
+        return None
+    if sum(role_of(s) == "multiplexer" for s in out) > 1:
+        # free_signals_two_multiplexers_note: a frame of a DBC file has one multiplexer; of several multiplexers among the free signals
+        # (multiplexers of two frames, or one selected by two patterns) dbc.dump writes the first and leaves the others out without a
+        # word (dbc.py dump: `if signal.multiplex == 'Multiplexor' and multiplex_written and not frame.is_complex_multiplexed: continue`).
+        # Not generated for now; reported as found.
         return None
     return out
 
@@ -560,6 +653,23 @@ def features(case, impl):
     yield "via=%s" % ("cli" if c.get("cli") else "convert()")
     for k in o:
         yield "opt:" + k
+    m_in = real["main"] if real else c["m"]
+    by_role = signals_by_role(m_in)
+    if by_role:
+        yield "input:multiplexed frame"
+    if any(kv[0] == "signed" for f in m_in["frames"] for s in f["sigs"] for kv in s["attrs"]):
+        yield "input:signed signal"
+    for opt in ("deleteSignal", "renameSignal"):
+        pats = [(p if isinstance(p, str) else p[0]) for p in o.get(opt) or []]
+        for role, names in sorted(by_role.items()):
+            if role != "all multiplexed" and any(fnmatch.fnmatchcase(n, p) for n in names for p in pats):
+                yield "%s:hits a %s" % (opt, role)
+        for f in m_in["frames"]:
+            roles = {s["name"]: role_of(s) for s in f["sigs"]}
+            for p in pats:
+                hit = [n for n in roles if fnmatch.fnmatchcase(n, p)]
+                if opt == "deleteSignal" and any(roles[n] == "multiplexer" for n in hit) and any(r == "multiplexed" and n not in hit for n, r in roles.items()):
+                    yield "deleteSignal:list entry takes the multiplexer and leaves multiplexed signals"
     if real and real["kind"] == "merge":
         yield "opt:merge"
         yield "merge:files=%d" % len(real["merge"])
